@@ -17,7 +17,7 @@ logging.disable(logging.CRITICAL)
 warnings.simplefilter("ignore")
 
 from traits.api import (  # noqa: E402
-    Any, Dict, HasTraits, Int, Interface, List, Property, Set, Supports, TraitError, TraitType, Tuple,
+    Any, Dict, HasTraits, Instance, Int, Interface, List, Property, Set, Supports, TraitError, TraitType, Tuple,
     cached_property, provides, push_exception_handler, register_factory)
 
 push_exception_handler(handler=lambda *a: None, reraise_exceptions=False, main=True)
@@ -28,10 +28,12 @@ EXC = {"TraitError": TraitError, "ValueError": ValueError, "AttributeError": Att
 
 # ---- fault plan -------------------------------------------------------------
 PLAN = {"kind": None, "k": None, "exc": None, "n": 0, "fired": False}
+CALLS = []          # the values V.validate was called with during the current operation, in order
 
 
 def arm(plan):
     PLAN.update(kind=None, k=None, exc=None, n=0, fired=False)
+    del CALLS[:]
     if plan:
         PLAN.update(kind=plan[0], k=plan[1], exc=EXC[plan[2]])
 
@@ -45,11 +47,24 @@ def tick_call():
         raise PLAN["exc"]("injected")
 
 
+def num(v):
+    """Integer atom of a value appearing in a log entry or snapshot; anything unexpected (Undefined, ...) is -99."""
+    if type(v) is int:
+        return v
+    if v is None:
+        return -1
+    return -99
+
+
+def onum(v):
+    return None if v is None else num(v)
+
+
 def handler_body(obj, j, a, b):
     if PLAN["kind"] == "handler" and PLAN["k"] == j:
         PLAN["fired"] = True
         raise PLAN["exc"]("injected")
-    obj._log.append([j, a, b])
+    obj._log.append([j, num(a), num(b)])
 
 
 # ---- values -----------------------------------------------------------------
@@ -57,8 +72,13 @@ def val(a):
     return a if a < 100 else str(a - 100)
 
 
+def atom(v):
+    return v if type(v) is int else 100 + int(v)
+
+
 class V(TraitType):
     def validate(self, obj, name, value):
+        CALLS.append(atom(value))
         tick_call()
         if type(value) is int:
             return value
@@ -84,6 +104,10 @@ class Q(HasTraits):
 
 
 class R(HasTraits):
+    v = Int()
+
+
+class S(HasTraits):      # no adaptation path to IProto
     v = Int()
 
 
@@ -114,7 +138,16 @@ class A(HasTraits):
     _p = Int(3)
     c = Property(Int, observe="x")
     ad = Supports(IProto)
+    y = V()
+    ad2 = Instance(IProto, adapt="default")
     _log = Any()
+
+    def _y_default(self):
+        tick_call()
+        return 43
+
+    def _y_changed(self, old, new):
+        handler_body(self, 5, old, new)
 
     def _m_default(self):
         tick_call()
@@ -167,9 +200,11 @@ def make():
 
 def snap(a):
     dd = a.__dict__
-    return {"x": dd["x"], "t": list(dd["t"]), "l": list(a.l), "d": sorted([k, v] for k, v in a.d.items()),
-            "s": sorted(a.s), "f": dd.get("f"), "m": dd.get("m"), "p": a._p,
-            "c": dd.get("_traits_cache_c"), "ad": a.ad.v}
+    return {"x": num(dd["x"]), "t": [num(v) for v in dd["t"]], "l": [num(v) for v in a.l],
+            "d": sorted([num(k), num(v)] for k, v in a.d.items()),
+            "s": sorted(num(v) for v in a.s), "f": onum(dd.get("f")), "m": onum(dd.get("m")), "p": num(a._p),
+            "c": onum(dd.get("_traits_cache_c")), "ad": a.ad.v, "y": onum(dd.get("y")),
+            "ad2": -1 if a.ad2 is None else a.ad2.v}
 
 
 def reg(a):
@@ -211,9 +246,7 @@ def execute(a, op, echo):
     elif k == "DSetDefault":
         a.d.setdefault(val(op[1]), val(op[2]))
     elif k == "SAssign":
-        arg = set(val(v) for v in op[1])
-        echo.append([v if type(v) is int else 100 + int(v) for v in arg])   # iteration order of this very object
-        a.s = arg
+        a.s = set(val(v) for v in op[1])
     elif k == "SAdd":
         a.s.add(val(op[1]))
     elif k == "SUpdate":
@@ -230,6 +263,17 @@ def execute(a, op, echo):
         a.c
     elif k == "SetAd":
         a.ad = SRC[op[1]](v=op[2])
+    elif k == "SIxor":
+        st = a.s
+        st ^= set(val(v) for v in op[1])
+    elif k == "SSymDiff":
+        a.s.symmetric_difference_update([val(v) for v in op[1]])
+    elif k == "SetY":
+        a.y = val(op[1])
+    elif k == "ReadY":
+        a.y
+    elif k == "SetAd2":
+        a.ad2 = (S if op[1] is None else SRC[op[1]])(v=op[2])
     else:
         raise ValueError(k)
 
@@ -244,6 +288,7 @@ def run_one(obj, op, plan):
     except Exception as e:  # noqa
         out = dlib.exn_name(e, EXN)
     fired = PLAN["fired"]
+    echo = list(CALLS)      # the order in which the validator actually saw the values (set iteration order)
     arm(None)
     return {"out": out, "st": snap(obj), "log": sorted(obj._log), "reg": reg(obj)}, fired, echo
 
